@@ -16,19 +16,27 @@ Proof. exact sem_ops_graph_only. Qed.
 Print Assumptions logical_ignores_indexes.
 
 Theorem zone_prune_sound : forall st e cs r,
-  zone_ok st -> lits_ok e = true -> zone_check st e = Some false -> zone_ne_odd st e = false ->
+  zone_ok st -> lits_ok e = true -> zone_check st e = Some false ->
   (forall x c, List.In x (expr_props e) -> row_look cs r x = Some c -> reads_node st c) ->
   passes_row st cs r e = false.
 Proof. exact ProofsPhys.zone_prune_sound. Qed.
 Print Assumptions zone_prune_sound.
 
 Theorem index_path : forall st x label e t,
-  store_ok st -> vals_ok st -> lits_ok e = true -> only_eq_conds x e = true ->
+  store_ok st -> vals_ok st -> lits_ok e = true ->
   (forall c, List.In c (collect_eq x e) -> num_mix st (fst c) (snd c) = false) ->
   try_index st (idx_of st) e (LScan x label) = Some t ->
   t = filter_tbl (fun r => passes_row st (x :: nil) r e) (mkT (x :: nil) (scan_rows st label)).
 Proof. exact index_path_eq. Qed.
 Print Assumptions index_path.
+
+Theorem index_path_pre : forall st x label e t,
+  store_ok st -> vals_ok st -> lits_ok e = true -> only_eq_conds x e = true ->
+  (forall c, List.In c (collect_eq x e) -> num_mix st (fst c) (snd c) = false) ->
+  try_index_pre st (idx_of st) e (LScan x label) = Some t ->
+  t = filter_tbl (fun r => passes_row st (x :: nil) r e) (mkT (x :: nil) (scan_rows st label)).
+Proof. exact index_path_pre_eq. Qed.
+Print Assumptions index_path_pre.
 
 Theorem range_path : forall st z x label e t,
   store_ok st -> vals_ok st -> zone_ok st -> lits_ok e = true ->
@@ -40,7 +48,7 @@ Proof. exact range_path_eq. Qed.
 Print Assumptions range_path.
 
 Theorem factorized_flat : forall st b steps t a rs,
-  rows_wf b -> steps <> nil -> steps_path (cols b) None steps -> steps_no_type_case st steps = true ->
+  rows_wf b -> steps <> nil -> steps_path (cols b) None steps ->
   flat_steps st b steps = Ok t -> fact_chain st b steps = Ok (a, rs) ->
   (a = List.length steps \/ rows b = nil) ->
   rs = rows t /\ chain_cols b steps = cols t.
@@ -80,9 +88,12 @@ Theorem cache_transparent : forall (text : Type) (text_eqb : text -> text -> boo
 Proof. exact cache_transparent_l. Qed.
 Print Assumptions cache_transparent.
 
-Theorem zone_edge_refuted : exists st p, k_zone_edge st p = true /\ run (opts_engine true) st p <> sem_ops st p.
-Proof. exact zone_edge_refuted_l. Qed.
-Print Assumptions zone_edge_refuted.
+Theorem zone_edge_pre_refuted : exists st e cs r,
+  zone_check st e = Some false /\ passes_row st cs r e = true /\
+  k_zone_edge w_zone_edge_st w_zone_edge_p = true /\
+  run (opts_engine true) w_zone_edge_st w_zone_edge_p = sem_ops w_zone_edge_st w_zone_edge_p.
+Proof. exact zone_edge_pre_refuted_l. Qed.
+Print Assumptions zone_edge_pre_refuted.
 
 Theorem zone_ne_pre_refuted : exists c v v',
   col_might_match_pre c ONe v = false /\ List.In v' (zhist c) /\ cmp_result ONe v' v = Some (VBool true) /\
@@ -90,9 +101,12 @@ Theorem zone_ne_pre_refuted : exists c v v',
 Proof. exact zone_ne_pre_refuted_l. Qed.
 Print Assumptions zone_ne_pre_refuted.
 
-Theorem index_residual_refuted : exists st p, k_index_residual st p = true /\ run (opts_engine true) st p <> sem_ops st p.
-Proof. exact index_residual_refuted_l. Qed.
-Print Assumptions index_residual_refuted.
+Theorem index_residual_pre_refuted : exists st x label e t,
+  try_index_pre st (idx_of st) e (LScan x label) = Some t /\
+  t <> filter_tbl (fun r => passes_row st (x :: nil) r e) (mkT (x :: nil) (scan_rows st label)) /\
+  k_index_residual w_index_residual_st w_index_residual_p = true.
+Proof. exact index_residual_pre_refuted_l. Qed.
+Print Assumptions index_residual_pre_refuted.
 
 Theorem index_num_refuted : exists st p, k_index_num st p = true /\ run (opts_engine true) st p <> sem_ops st p.
 Proof. exact index_num_refuted_l. Qed.
@@ -106,17 +120,23 @@ Theorem fact_missing_level_refuted : exists st p, k_fact_missing_level st p = tr
 Proof. exact fact_missing_level_refuted_l. Qed.
 Print Assumptions fact_missing_level_refuted.
 
-Theorem fact_type_case_refuted : exists st p, k_fact_type_case st p = true /\ run (opts_engine true) st p <> sem_ops st p.
-Proof. exact fact_type_case_refuted_l. Qed.
-Print Assumptions fact_type_case_refuted.
+Theorem fact_type_case_pre_refuted : exists st n d ty,
+  neighbors st false n d ty <> neighbors st true n d ty /\
+  k_fact_type_case w_fact_type_case_st w_fact_type_case_p = true /\
+  run (opts_engine true) w_fact_type_case_st w_fact_type_case_p = sem_ops w_fact_type_case_st w_fact_type_case_p.
+Proof. exact fact_type_case_pre_refuted_l. Qed.
+Print Assumptions fact_type_case_pre_refuted.
 
 Theorem fact_not_path_refuted : exists st p, k_fact_not_path p = true /\ run (opts_engine true) st p <> sem_ops st p.
 Proof. exact fact_not_path_refuted_l. Qed.
 Print Assumptions fact_not_path_refuted.
 
-Theorem fact_agg_distinct_refuted : exists st p, k_fact_agg_distinct p = true /\ run (opts_engine true) st p <> sem_ops st p.
-Proof. exact fact_agg_distinct_refuted_l. Qed.
-Print Assumptions fact_agg_distinct_refuted.
+Theorem fact_agg_distinct_pre_refuted : exists a inputs n,
+  simple_count_pre a <> None /\ simple_count a = None /\ agg_value a inputs n <> Ok (VInt (Z.of_nat n)) /\
+  k_fact_agg_distinct w_fact_agg_distinct_p = true /\
+  run (opts_engine true) w_fact_agg_distinct_st w_fact_agg_distinct_p = sem_ops w_fact_agg_distinct_st w_fact_agg_distinct_p.
+Proof. exact fact_agg_distinct_pre_refuted_l. Qed.
+Print Assumptions fact_agg_distinct_pre_refuted.
 
 (** non-vacuity: a store with a property index and a zone map, a two-hop plan with an equality
     filter on the scan — the index path and the factorized chain are both taken, every hypothesis of
